@@ -63,6 +63,8 @@ def run(ctx):
     ctx.rule("R-SIB", "contradiction rule: adjacency merging implies overlap handling")
     ctx.rule("R-GRD", "success requires the guard literal")
     ctx.rule("R-PANIC", "end-of-number-space arithmetic")
+    ctx.rule("R-REG", "decision table of a comparison-only function equals the interval definition on every ordering")
+    K.check_block_predicates(ctx, f)
 
     # ---- C03.a canonical-form discipline --------------------------------------
     OC = CH + "OwnedChain"
@@ -201,6 +203,7 @@ def run(ctx):
 
     # ---- C03.d lower <= upper at untrusted constructors -----------------------------------
     check_ranges(ctx, f)
+    check_interval_discipline(ctx, f)
 
     # ---- C03.e issuance / limit results ------------------------------------------------------
     K.check_verify_issued(ctx, f)
@@ -384,3 +387,159 @@ def check_resource_set(ctx, f):
             ctx.ob("R-GRD", "ResourceSet::contains:requires-%s" % fam, okf,
                    "ResourceSet::contains is true only if the %s resources are contained" % fam, where=b.loc,
                    detail=None if okf else K.why(f, mp, b.name))
+
+
+# ---------------------------------------------------------------------------------------------
+# C03.g / C03.h — interval discipline in the chain algorithms
+
+def bound_kind(sym, t, depth=0):
+    """'L' (a lower bound / first item), 'U' (an upper bound / last item) or None for a compared quantity."""
+    t = strip_deep(t)
+    if depth > 6:
+        return None
+    if t[0] == "call":
+        m = t[3] or {}
+        nm = m.get("name")
+        own = m.get("krate") == "rpki"
+        if own and nm == "min":
+            return "L"
+        if own and nm == "max":
+            return "U"
+        if nm in ("unwrap", "expect") and t[2]:
+            inner = strip_deep(t[2][0])
+            if inner[0] == "call" and (inner[3] or {}).get("krate") == "rpki" and inner[2]:
+                k = bound_kind(sym, inner[2][0], depth + 1)
+                if (inner[3] or {}).get("name") == "next" and k == "U":
+                    return "L"          # the first item after a block
+                if (inner[3] or {}).get("name") == "previous" and k == "L":
+                    return "U"          # the last item before a block
+        if not own and nm in ("max", "min") and len(t[2]) == 2:
+            ks = {bound_kind(sym, a, depth + 1) for a in t[2]}
+            if ks == {"L"} or ks == {"U"}:
+                return ks.pop()
+        return None
+    if t[0] == "field" and t[2] in ("0", "1"):
+        base = strip_deep(t[1])
+        # (min, max) pairs: Block::bounds(), RoaIpAddress::range(), Prefix::range()
+        probe = base
+        if probe[0] == "variant":
+            probe = strip_deep(probe[1])
+        txt = render(probe)
+        if re.search(r"(fn:Block::bounds|::bounds\(|::range\()", txt):
+            return "L" if t[2] == "0" else "U"
+        if base[0] in ("var", "mvar"):
+            defs = []
+            for _, d0 in sym.defs_of_var(base[2]):
+                for d in expand(sym, d0, 4):
+                    d = strip_deep(d)
+                    # Option<(min, max)>: look through Some(..)
+                    while d[0] == "field" and d[2] == "0" and strip_deep(d[1])[0] == "variant" and strip_deep(strip_deep(d[1])[1])[0] == "agg":
+                        inner = strip_deep(strip_deep(d[1])[1])
+                        hit = [v for f_, v in inner[3] if f_ in ("0", 0)]
+                        if not hit:
+                            break
+                        d = strip_deep(hit[0])
+                    defs.append(d)
+            ok = bool(defs)
+            for d in defs:
+                pair = None
+                if d[0] == "agg" and d[1] == "tuple" and len(d[3]) == 2:
+                    pair = (sym, d[3][0][1], d[3][1][1])
+                else:
+                    # `iter.next().map(|item| (item.min(), item.max())).unwrap()`: look into the mapping closure
+                    for x in walk(d):
+                        if x[0] == "closure" and sym.body.facts is not None and sym.body.facts.body(x[1]) is not None:
+                            cb = sym.body.facts.body(x[1])
+                            cs = K.sym_of(cb)
+                            for blk in cb.blocks:
+                                for st in blk["stmts"]:
+                                    if st["s"] == "assign" and st["pl"]["l"] == 0 and not st["pl"]["p"]:
+                                        r = strip_deep(cs.rvalue(st["rv"]))
+                                        if r[0] == "agg" and r[1] == "tuple" and len(r[3]) == 2:
+                                            pair = (cs, r[3][0][1], r[3][1][1])
+                if pair is not None:
+                    k0 = bound_kind(pair[0], pair[1], depth + 1)
+                    k1 = bound_kind(pair[0], pair[2], depth + 1)
+                    # the second component may be carried over from the pair itself
+                    if k0 == "L" and (k1 == "U" or render(strip_deep(pair[2])).endswith(".1")):
+                        continue
+                ok = False
+            if ok:
+                return "L" if t[2] == "0" else "U"
+    return None
+
+
+ALLOWED_MIXED = {("U", "<", "L"), ("U", ">=", "L"), ("L", ">", "U"), ("L", "<=", "U")}
+
+
+def check_interval_discipline(ctx, f):
+    from engine import orderlogic as OL
+    # ---- C03.g a merge only ever raises the upper bound ----------------------------------------
+    n_ext = 0
+    for c in calls_to(f, lambda c: c.name == "new" and (c.trait or "").endswith("chain::Block")):
+        b = c.body
+        if b.is_cleanup(c.bb) or is_derived(b) or "::test" in b.name or not b.file.endswith("resources/chain.rs"):
+            continue
+        a0, a1 = [K.alpha(render(x), b) for x in K.arg_terms(c)[:2]]
+        m_lo = re.match(r"^Block::min\((.+)\)$", a0)
+        m_lo2 = re.match(r"^(.+bounds\)↓Some\.0)\.0$", a0)
+        m_hi = re.match(r"^Block::max\((.+)\)$", a1)
+        if not m_hi or not (m_lo or m_lo2):
+            continue
+        E_hi = "Block::max(%s)" % m_lo.group(1) if m_lo else m_lo2.group(1) + ".1"
+        X = m_hi.group(1)
+        if m_lo and m_lo.group(1) == X:
+            continue            # a copy of one block
+        n_ext += 1
+        guards = K.dominating_guards(f, b, c.bb)
+        g1 = "PartialOrd::gt(%s, %s) -> else" % (a1, E_hi)
+        g2 = "PartialEq::eq(Block::next(%s), option::Option::Some{0: Block::min(%s)}) -> else" % (E_hi, X)
+        ok = g1 in guards or g2 in guards
+        ctx.ob("R-GRD", "%s:merge-raises-upper[%s]" % (short(root_fn(f, b.name)), a1[:60]), ok,
+               "%s replaces a stored block by (its min, another block's max) only where that max is larger than the stored one "
+               "(or the other block starts right after it) — a merge never shrinks a block" % short(root_fn(f, b.name)),
+               where=c.where(), detail={"new": [a0, a1], "needs_one_of": [g1, g2], "guards": guards})
+    ctx.floor("R-GRD", "block-extending merges in chain.rs", n_ext, 5)
+
+    # ---- C03.h inclusive bounds: an upper and a lower bound are compared strictly for disjointness ----------
+    n_mixed = 0
+    for n, b in sorted(f.bodies.items()):
+        if is_derived(b) or "::test" in n:
+            continue
+        if not (b.file.endswith("resources/chain.rs") or b.file.endswith("resources/ipres.rs") or b.file.endswith("resources/asres.rs")):
+            continue
+        s = K.sym_of(b)
+        seen = set()
+
+        def scan(t, where):
+            nonlocal n_mixed
+            a = OL.atom(t)
+            neg = False
+            while a[0] == "not":
+                a, neg = a[1], not neg
+            if a[0] != "cmp" or a[1] not in ("<", "<=", ">", ">="):
+                return
+            ka, kb = bound_kind(s, a[2]), bound_kind(s, a[3])
+            if not ka or not kb or ka == kb:
+                return
+            key = "%s %s %s" % (K.alpha(render(a[2]), b)[:70], a[1], K.alpha(render(a[3]), b)[:70])
+            if key in seen:
+                return
+            seen.add(key)
+            n_mixed += 1
+            ctx.ob("R-SIB", "%s:bounds-compared[%s]" % (short(root_fn(f, n)), key), (ka, a[1], kb) in ALLOWED_MIXED,
+                   "blocks are inclusive ranges: an upper and a lower bound are compared as `upper < lower` (disjoint) or "
+                   "`lower <= upper` (touching counts as overlap) — %s writes %s %s %s" % (short(root_fn(f, n)), ka, a[1], kb),
+                   where=where)
+        for bi, blk in enumerate(b.blocks):
+            if blk.get("cleanup"):
+                continue
+            t = blk["term"]
+            if t["t"] == "switch" and t.get("dty") == "bool":
+                scan(strip_deep(s.operand(t["discr"])), b.where(bi))
+            for st in blk["stmts"]:
+                if st["s"] == "assign" and st["pl"]["l"] == 0 and not st["pl"]["p"]:
+                    scan(strip_deep(s.rvalue(st["rv"])), b.where(bi))
+            if t["t"] == "call" and t["dest"]["l"] == 0 and not t["dest"]["p"]:
+                scan(strip_deep(s.call(t, bi)), b.where(bi))
+    ctx.floor("R-SIB", "upper/lower bound comparisons in the resource code", n_mixed, 9)
